@@ -29,7 +29,7 @@ func VerifHarness_C17_CustomFunctions() {
 	_, exists := t[name]
 	var fn any
 	goodSig := false
-	kind := verifrt.Choose("fn", 11)
+	kind := verifrt.Choose("fn", 12)
 	tag := verifrt.NondetInt32("tag")
 	var seenIn system.Collection
 	var seenArg system.String
@@ -63,6 +63,8 @@ func VerifHarness_C17_CustomFunctions() {
 		fn = func(in system.Collection, n int) (system.Collection, error) { return in, nil }
 	case 9: // the second result is not an error at all
 		fn = func(in system.Collection, s system.String) (system.Collection, bool) { return in, true }
+	case 11: // the second result is a type that is merely *called* error (what it returns would be dropped)
+		fn = verifFuncWithATypeCalledError()
 	default: // not a function
 		fn = 42
 	}
@@ -187,4 +189,10 @@ func VerifHarness_C17_VariableKeepsItsValueAfterUse() {
 	}
 	verifrt.Assert(same, "variable-evaluates-to-the-supplied-value-after-use")
 	verifrt.Reach("end")
+}
+
+// verifFuncWithATypeCalledError: inside this function `error` is a local struct type, not the predeclared interface.
+func verifFuncWithATypeCalledError() any {
+	type error struct{ msg string }
+	return func(in system.Collection, s system.String) (system.Collection, error) { return in, error{"dropped"} }
 }
